@@ -13,6 +13,7 @@ TraceInit == /\ tid \in 1 .. Len(Traces) /\ l = 1 /\ Init /\ TLCSet(tid, 1)
 
 Event(ev) ==
     CASE ev.ev = "EmitCall" -> /\ EmitCall(ev.e)
+                               /\ ev.mdok                                       \* C10: metadata passed through unchanged
                                /\ ev.deliveries = [c \in 1 .. K |-> c]         \* consumers served in attachment order
                                /\ (ev.fired <=> (Len(fired') > Len(fired)))
       [] ev.ev = "ConsumerDone" -> ConsumerDone(ev.e, ev.c)
